@@ -234,8 +234,10 @@ class shard_env:
 def with_array_forms(shards, tier, pick):
     """Copies of the picked shards that hand the library another FORM of the same arrays (mc/values.np_array):
     quick - a read-only strided view, and plain Python lists (for the kinds whose dtype the constructor infers from a
-    list); thorough - also a plain read-only array and a negative-stride view."""
-    forms = ["strided", "pylist", "npstring"] if tier == "quick" else ["strided", "pylist", "npstring", "readonly", "reversed"]
+    list), and frames / vectors that are the product of a concatenation; thorough - also a plain read-only array, a
+    negative-stride view, and the products of a fancy-indexed selection, a deep copy and an Arrow round trip."""
+    forms = (["strided", "pylist", "npstring", "viarbind"] if tier == "quick" else
+             ["strided", "pylist", "npstring", "readonly", "reversed", "viarbind", "viaslice", "viadeepcopy", "viaarrow"])
     extra = []
     for sh in shards:
         if "__env__" not in sh and pick(sh):
